@@ -11,8 +11,8 @@
 From Coq Require Import List NArith Bool.
 From Coq Require Import Strings.Byte.
 From HN Require Import Base.Bytes Base.Keyed Model.TotalBase Model.TotalTcpOpt Model.TotalMisc Model.TotalReader
-  Model.TotalH2 Model.TotalRaw Model.TotalLink Model.TotalTlsFlow Spec.TotalSpec
-  Proofs.TotalTcpOptProofs Proofs.TotalH2Proofs Proofs.TotalLinkProofs Proofs.TotalTlsFlowProofs Proofs.TotalAllProofs Proofs.TotalRecoverProofs.
+  Model.TotalH2 Model.TotalRaw Model.TotalLink Model.TotalTlsFlow Model.TotalHttp1 Spec.TotalSpec
+  Proofs.TotalTcpOptProofs Proofs.TotalH2Proofs Proofs.TotalLinkProofs Proofs.TotalTlsFlowProofs Proofs.TotalHttp1Proofs Proofs.TotalAllProofs Proofs.TotalRecoverProofs.
 Import ListNotations.
 Open Scope N_scope.
 
@@ -280,6 +280,32 @@ Check C01_tls_flow_others_untouched :
   forall (parse : bytes -> pres) (t : ftable) (f : N) (p : bytes) (t' : ftable) (rep : bool) (o : option rout) (g : N),
     tls_step parse t f p = Ok (t', rep, o) -> (g =? f) = false -> ffind t' g = ffind t g.
 Print Assumptions C01_tls_flow_others_untouched.
+
+(* head layout of Http1Parser::parse_request / parse_response (head_of, blank-line test, split into lines, lines[0], &lines[1..header_end]): total for every byte string and whatever the start-line / header parsers decide on a non-empty first line; rests on the modelled fact that both start-line parsers reject the empty line *)
+Theorem C01_nopanic_http1_head :
+  forall (ok : bool) (data : bytes), parse_head ok data <> Panic /\ parse_head ok data <> OutOfFuel.
+Proof. intros. apply parse_head_total. Qed.
+Check C01_nopanic_http1_head :
+  forall (ok : bool) (data : bytes), parse_head ok data <> Panic /\ parse_head ok data <> OutOfFuel.
+Print Assumptions C01_nopanic_http1_head.
+
+(* a head that starts with an empty line (leading CRLF / LF) and contains a blank line is answered with the error value *)
+Theorem C01_http1_empty_first_line_is_err :
+  forall (ok : bool) (data : bytes) (ls : list bytes),
+    has_blank_line (head_of data) = true -> lines_of (head_of data) = [] :: ls -> parse_head ok data = Ok HErr.
+Proof. exact parse_head_empty_first_line. Qed.
+Check C01_http1_empty_first_line_is_err :
+  forall (ok : bool) (data : bytes) (ls : list bytes),
+    has_blank_line (head_of data) = true -> lines_of (head_of data) = [] :: ls -> parse_head ok data = Ok HErr.
+Print Assumptions C01_http1_empty_first_line_is_err.
+
+(* sensitivity witness: taking the slice before the start line is parsed panics in the model on CR LF CR LF; the code as it is returns Err *)
+Theorem C01_http1_slice_first_refuted :
+  parse_head_slice_first true [x0d; x0a; x0d; x0a] = Panic /\ parse_head true [x0d; x0a; x0d; x0a] = Ok HErr.
+Proof. split; [exact slice_first_panics | exact (proj1 as_is_returns_err)]. Qed.
+Check C01_http1_slice_first_refuted :
+  parse_head_slice_first true [x0d; x0a; x0d; x0a] = Panic /\ parse_head true [x0d; x0a; x0d; x0a] = Ok HErr.
+Print Assumptions C01_http1_slice_first_refuted.
 
 (* recovery, generic over every keyed analyzer (state confined to the slot of the connection identity;
    identity = None for frames from which none can be read): after ANY history whose inputs never carry the
